@@ -5,6 +5,7 @@ CONSTANTS
   Kind <- K_N3slow2
   HoldLock = FALSE
   OneShot = FALSE
+  Guarded = TRUE
   Spawned = 3
 INVARIANT Safety
 PROPERTIES EventuallyShortDone
